@@ -30,7 +30,7 @@ type Built struct {
 }
 
 // L5 is the operand-layout set named by C06: contiguous, lazily transposed, sliced, step-sliced, materialised.
-var L5 = []string{"C", "T", "S", "SS", "M"}
+var L5 = []string{"C", "T", "S", "SS", "M", "Cl"}
 
 // LF is the column-major layout family of C16.
 var LF = []string{"F", "Fc", "FS", "FT", "FM", "FR", "FL"}
